@@ -5,7 +5,9 @@ import (
 	"encoding/base64"
 	"fmt"
 	"math/rand"
+	"os"
 	"regexp"
+	"sort"
 	"strings"
 	"sync"
 	"time"
@@ -19,8 +21,8 @@ import (
 //
 // Suites: sasl.b64enc / sasl.b64dec (Lib/Base64.v vs encoding/base64), sasl.plain /
 // sasl.external (the two Encode methods), sasl.session (connected: registration,
-// CAP LS/ACK, AUTHENTICATE, 900-908, OPER; wire lines, Connect's result, log
-// hygiene), sasl.log (the Sensitive/Echo gates of debugLogEvent, RunHandlers and
+// CAP LS/ACK, AUTHENTICATE, 900-908, OPER; mechanisms PLAIN, EXTERNAL, fixed response,
+// stateful sequence of responses; wire lines, Connect's result, log hygiene), sasl.log (the Sensitive/Echo gates of debugLogEvent, RunHandlers and
 // Pretty on arbitrary events).
 
 const b64Alphabet = "ABCDEFGHIJKLMNOPQRSTUVWXYZabcdefghijklmnopqrstuvwxyz0123456789+/"
@@ -129,6 +131,24 @@ type fixedMech struct{ method, resp string }
 func (m *fixedMech) Method() string         { return m.method }
 func (m *fixedMech) Encode([]string) string { return m.resp }
 
+// seqMech keeps state between calls, as challenge-response mechanisms do: the k-th call
+// of Encode returns the k-th response, "" (give up) once they are used up.
+type seqMech struct {
+	method string
+	resps  []string
+	calls  int
+}
+
+func (m *seqMech) Method() string { return m.method }
+func (m *seqMech) Encode([]string) string {
+	r := ""
+	if m.calls < len(m.resps) {
+		r = m.resps[m.calls]
+	}
+	m.calls++
+	return r
+}
+
 var reDebugLine = regexp.MustCompile(`(?m)^debug:\d\d:\d\d:\d\d \S+:\d+: (.*)$`)
 
 func debugMessages(text string) []string {
@@ -155,6 +175,8 @@ func leak(text string, secrets []string) string {
 	return ""
 }
 
+var strictCapEnd = os.Getenv("VERIF_C09_STRICT") != "0" // on by default: the two shapes are recorded as known findings (KNOWN_FINDINGS.txt)
+
 func isBarrier(l string) bool { return strings.HasPrefix(l, "PONG vb") }
 
 // barrier sends a PING through the socket and waits until its PONG has been written
@@ -163,11 +185,11 @@ func isBarrier(l string) bool { return strings.HasPrefix(l, "PONG vb") }
 func barrier(s *drive.Session, k int) (returned bool, err error, ok bool) {
 	tag := fmt.Sprintf("vb%d", k)
 	go func() {
-		_ = s.Peer.SetWriteDeadline(time.Now().Add(3 * time.Second))
+		_ = s.Peer.SetWriteDeadline(time.Now().Add(20 * time.Second))
 		_, _ = s.Peer.Write([]byte("PING :" + tag + "\r\n"))
 	}()
 	want := "PONG " + tag + "\r\n"
-	deadline := time.Now().Add(6 * time.Second)
+	deadline := time.Now().Add(30 * time.Second)
 	for {
 		select {
 		case err := <-s.Done:
@@ -187,14 +209,45 @@ func barrier(s *drive.Session, k int) (returned bool, err error, ok bool) {
 	}
 }
 
+// canonReq sorts the tokens of a CAP REQ line: handleCAP builds the list by ranging over a
+// map, so their order is not an observable of the implementation.
+func canonReq(l string) string {
+	const pfx = "CAP REQ "
+	if !strings.HasPrefix(l, pfx) {
+		return l
+	}
+	toks := strings.Split(strings.TrimPrefix(l[len(pfx):], ":"), " ")
+	if len(toks) < 2 {
+		return l
+	}
+	sort.Strings(toks)
+	return pfx + ":" + strings.Join(toks, " ")
+}
+
 func wireLines(ls []string) []string {
 	var out []string
 	for _, l := range ls {
 		if !isBarrier(l) {
-			out = append(out, strings.TrimSuffix(l, "\r\n"))
+			out = append(out, canonReq(strings.TrimSuffix(l, "\r\n")))
 		}
 	}
 	return out
+}
+
+// capabilities the client asks for when they are advertised (cap.go possibleCap; sasl is
+// added when a mechanism is configured; STS is disabled in these sessions)
+var builtinCaps = map[string]bool{
+	"account-notify": true, "account-tag": true, "away-notify": true, "batch": true, "cap-notify": true,
+	"chghost": true, "extended-join": true, "invite-notify": true, "message-tags": true, "msgid": true,
+	"multi-prefix": true, "server-time": true, "userhost-in-names": true,
+	"draft/message-tags-0.2": true, "draft/msgid": true,
+}
+
+func saslCapName(tok string) string {
+	if i := strings.IndexByte(tok, '='); i >= 1 {
+		return tok[:i]
+	}
+	return tok
 }
 
 func stepLine(cmd string, params ...string) string {
@@ -211,6 +264,7 @@ func runSession(c Case) Result {
 	steps := c[7:]
 
 	cfg := drive.BaseConfig()
+	cfg.DisableSTS = true // STS is C10's subject; the model's client has it disabled too
 	dbg, out := &lockedBuf{}, &lockedBuf{}
 	cfg.Debug, cfg.Out = dbg, out
 	var mech girc.SASLMech
@@ -235,6 +289,19 @@ func runSession(c Case) Result {
 		mech = &fixedMech{a1, a2}
 		expect = func(params []string) string { return a2 }
 		secrets = append(secrets, a2)
+	case "S":
+		resps := strings.Split(a2, ",")
+		mech = &seqMech{method: a1, resps: resps}
+		asked := 0 // the oracle keeps its own count of challenges
+		expect = func(params []string) string {
+			r := ""
+			if asked < len(resps) {
+				r = resps[asked]
+			}
+			asked++
+			return r
+		}
+		secrets = append(secrets, resps...)
 	}
 	if mech != nil {
 		cfg.SASL = mech
@@ -261,9 +328,14 @@ func runSession(c Case) Result {
 	obs := "R=" + HexList(reg)
 
 	authStarted := false
-	inAlphabet := true
 	sawSuccess := false
 	sig := kind
+	// The server's own view of the negotiation, kept from the lines it sent (IRCv3
+	// capability negotiation): is sasl acknowledged, and has anything the client supports
+	// been advertised since the last ACK (so that a final LS/NEW must be answered by REQ).
+	saslOn := false
+	pending := map[string]bool{} // requestable names advertised and neither acknowledged, refused nor withdrawn yet
+	capMarks := map[string]bool{}
 	for i, st := range steps {
 		if returned || !ok {
 			break
@@ -301,8 +373,65 @@ func runSession(c Case) Result {
 				fail("oper-line", "Cmd.Oper wrote %q", lines)
 			}
 		case cmd == "CAP":
-			if len(f) >= 3 && f[2] == "NAK" {
-				inAlphabet = false
+			// Which CAP lines may be answered by CAP END while authentication is running
+			// (stated exactly in Properties/C09.v C09_cap_end_iff): a NAK; a final LS/NEW
+			// after which nothing is left to request; an ACK after which sasl is no longer
+			// acknowledged (the server took it away with DEL or "-sasl").  Nothing else.
+			excused := false
+			sub, last := "", ""
+			if len(f) >= 3 {
+				sub, last = f[2], f[len(f)-1]
+			}
+			toks := strings.Split(last, " ")
+			switch {
+			case len(f) >= 3 && sub == "DEL":
+				for _, t := range toks {
+					if saslCapName(t) == "sasl" {
+						saslOn = false
+					}
+					delete(pending, saslCapName(t))
+				}
+			case len(f) >= 3 && sub == "NAK":
+				pending = map[string]bool{}
+				excused = true
+				capMarks["nak"] = true
+			case len(f) >= 4 && (sub == "LS" || sub == "NEW"):
+				for _, t := range toks {
+					if n := saslCapName(t); builtinCaps[n] || (n == "sasl" && mech != nil) {
+						pending[n] = true
+					}
+				}
+				if len(f) == 4 {
+					excused = len(pending) == 0
+					if authStarted {
+						capMarks[strings.ToLower(sub)+map[bool]string{true: "-empty", false: "-req"}[excused]] = true
+					}
+				}
+			case len(f) == 4 && sub == "ACK":
+				for _, t := range toks {
+					if t == "sasl" {
+						saslOn = true
+					} else if t == "-sasl" {
+						saslOn = false
+					}
+				}
+				pending = map[string]bool{}
+				excused = !saslOn || mech == nil
+				if authStarted {
+					capMarks["ack"+map[bool]string{true: "-nosasl", false: ""}[excused]] = true
+				}
+			}
+			// VERIF_C09_STRICT (on by default, "0" switches it off; see notes/proposed-fixes/c09-cap-end-during-auth.md):
+			// also report the two excused shapes a server can produce during the exchange.
+			if strictCapEnd && capEnd && authStarted && !sawSuccess && saslOn && mech != nil && excused {
+				cls := "cap-end-on-nak-during-auth"
+				if sub != "NAK" {
+					cls = "cap-end-on-empty-ls-during-auth"
+				}
+				fail(cls, "CAP END written on %q while authentication was in progress", strings.ReplaceAll(st, "\x00", " "))
+			}
+			if capEnd && authStarted && !sawSuccess && !excused {
+				fail("cap-end-without-success", "CAP END written on %q while authentication was in progress (sasl acknowledged, no 903 yet)", strings.ReplaceAll(st, "\x00", " "))
 			}
 			if mech != nil && len(auths) == 1 && auths[0] == mech.Method() {
 				authStarted = true
@@ -336,7 +465,7 @@ func runSession(c Case) Result {
 		case cmd == "903":
 			sawSuccess = true
 		}
-		if capEnd && authStarted && inAlphabet && cmd != "903" {
+		if capEnd && authStarted && cmd != "903" && cmd != "CAP" {
 			fail("cap-end-without-success", "CAP END written on %q after authentication started", strings.ReplaceAll(st, "\x00", " "))
 		}
 		if returned {
@@ -368,8 +497,13 @@ func runSession(c Case) Result {
 	if authStarted {
 		sig += "/auth"
 	}
-	if !inAlphabet {
-		sig += "/nak"
+	if len(capMarks) > 0 {
+		var ms []string
+		for m := range capMarks {
+			ms = append(ms, m)
+		}
+		sort.Strings(ms)
+		sig += "/cap:" + strings.Join(ms, ",")
 	}
 	obs += ";" + status
 
@@ -378,6 +512,9 @@ func runSession(c Case) Result {
 	var outgoing []string
 	for _, m := range debugMessages(dtext) {
 		if strings.HasPrefix(m, ">") && !strings.Contains(m, "PONG vb") {
+			if strings.HasPrefix(m, "> ") {
+				m = "> " + canonReq(m[2:])
+			}
 			outgoing = append(outgoing, m)
 		}
 	}
@@ -428,6 +565,7 @@ func numericStep(n string) string {
 
 func genSessionCase(r *rand.Rand) Case {
 	var kind, a1, a2 string
+	extraChallenges := 0
 	switch x := r.Intn(100); {
 	case x < 40:
 		kind = "P"
@@ -444,7 +582,7 @@ func genSessionCase(r *rand.Rand) Case {
 			}
 			a1 = RandBytes(r, n, b64Alphabet)
 		}
-	case x < 90:
+	case x < 78:
 		kind = "C"
 		a1 = Pick(r, "XMECH", "SCRAM-SHA-256", "ANONYMOUS", "ECDSA-NIST256P-CHALLENGE")
 		n := saslTargets[r.Intn(len(saslTargets))]
@@ -452,6 +590,24 @@ func genSessionCase(r *rand.Rand) Case {
 			n = r.Intn(2500)
 		}
 		a2 = RandBytes(r, n, b64Alphabet)
+	case x < 92:
+		kind = "S"
+		a1 = Pick(r, "SCRAM-SHA-256", "XSTATEFUL", "ECDSA-NIST256P-CHALLENGE")
+		var rs []string
+		for i, k := 0, 1+r.Intn(3); i < k; i++ {
+			n := saslTargets[1+r.Intn(len(saslTargets)-1)]
+			switch r.Intn(6) {
+			case 0:
+				n = 1 + r.Intn(900)
+			case 1:
+				if i > 0 {
+					n = 0 // gives up in the middle of the exchange
+				}
+			}
+			rs = append(rs, RandBytes(r, n, b64Alphabet))
+		}
+		a2 = strings.Join(rs, ",")
+		extraChallenges = r.Intn(4)
 	default:
 		kind = "N"
 	}
@@ -483,14 +639,57 @@ func genSessionCase(r *rand.Rand) Case {
 		}
 		return numericStep(fmt.Sprintf("90%d", r.Intn(9)))
 	}
+	// CAP lines a server may send while the SASL exchange is running: capabilities
+	// acknowledged on separate lines, cap-notify NEW/DEL, a repeated LS, a NAK.
+	capDuringAuth := func() []string {
+		switch x := r.Intn(20); {
+		case x < 6:
+			return []string{stepLine("CAP", "*", "ACK", Pick(r, "multi-prefix", "away-notify", "multi-prefix away-notify", "server-time", "foo"))}
+		case x < 8:
+			return []string{stepLine("CAP", "*", "ACK", Pick(r, "sasl", "sasl multi-prefix", "multi-prefix sasl"))}
+		case x < 11:
+			n := Pick(r, "away-notify", "batch", "chghost foo", "sasl")
+			return []string{stepLine("CAP", "*", "NEW", n), stepLine("CAP", "*", "ACK", n)}
+		case x < 13:
+			return []string{stepLine("CAP", "*", "NEW", Pick(r, "foo", "unknown-cap=1", ""))}
+		case x < 15:
+			return []string{stepLine("CAP", "*", "LS", "*", Pick(r, "multi-prefix", "foo", "batch=x")), stepLine("CAP", "*", "LS", Pick(r, "foo", "server-time", ""))}
+		case x < 16:
+			return []string{stepLine("CAP", "*", "DEL", Pick(r, "multi-prefix", "foo", "away-notify"))}
+		case x < 17:
+			return []string{stepLine("CAP", "*", "NAK", Pick(r, "sasl", "foo"))}
+		case x < 18:
+			return []string{stepLine("CAP", "*", "ACK", Pick(r, "-sasl", "multi-prefix -sasl", "-sasl sasl", "-multi-prefix"))}
+		case x < 19:
+			return []string{stepLine("CAP", "*", "DEL", Pick(r, "sasl", "sasl multi-prefix")), stepLine("CAP", "*", "ACK", "multi-prefix")}
+		default:
+			return []string{stepLine("CAP", "*", Pick(r, "LIST", "ACK", "NEW", "LS")), stepLine("CAP", "*", "ACK", "*", "multi-prefix")}
+		}
+	}
 	if r.Intn(6) > 0 {
-		steps = append(steps, stepLine("CAP", "*", "LS", Pick(r, "sasl", "sasl", "sasl", "sasl=PLAIN,EXTERNAL", "foo sasl", "foo", "")))
+		steps = append(steps, stepLine("CAP", "*", "LS", Pick(r, "sasl", "sasl", "sasl", "sasl=PLAIN,EXTERNAL", "foo sasl", "foo", "",
+			"sasl multi-prefix", "multi-prefix sasl away-notify", "cap-notify sasl=PLAIN server-time")))
 		if r.Intn(12) == 0 {
 			steps = append(steps, stepLine("CAP", "*", "NAK", "sasl"))
 		}
-		steps = append(steps, stepLine("CAP", "*", "ACK", Pick(r, "sasl", "sasl", "sasl", "sasl", "foo sasl", "foo", "sasl=PLAIN")))
+		steps = append(steps, stepLine("CAP", "*", "ACK", Pick(r, "sasl", "sasl", "sasl", "sasl", "foo sasl", "foo", "sasl=PLAIN", "sasl multi-prefix")))
+		during := r.Intn(2) == 0
+		if during && r.Intn(2) == 0 {
+			steps = append(steps, capDuringAuth()...)
+		}
 		if r.Intn(8) > 0 {
 			steps = append(steps, challenge())
+		}
+		if during {
+			for i, n := 0, 1+r.Intn(2); i < n; i++ {
+				steps = append(steps, capDuringAuth()...)
+				if r.Intn(3) == 0 {
+					steps = append(steps, challenge())
+				}
+			}
+		}
+		for i := 0; i < extraChallenges; i++ {
+			steps = append(steps, stepLine("AUTHENTICATE", RandBytes(r, 4*(1+r.Intn(6)), b64Alphabet)))
 		}
 	}
 	for i, n := 0, r.Intn(4); i < n; i++ {
@@ -529,6 +728,49 @@ func fixedSessionCases() []Case {
 		out = append(out, Case{"N", "", "", "", "", "operuser", randSecret(r), ls, ack, plus, numericStep(fmt.Sprintf("90%d", d))})
 	}
 	out = append(out, Case{"E", "", "", "", "", "operuser", randSecret(r), ls, ack, plus, numericStep("903")})
+	// CAP lines while the exchange is running.  Every one of these must leave CAP END
+	// unsent until 903 ...
+	capStep := func(p ...string) string { return stepLine("CAP", append([]string{"*"}, p...)...) }
+	lsMulti, ackSasl := capStep("LS", "sasl multi-prefix away-notify"), capStep("ACK", "sasl")
+	for _, mid := range [][]string{
+		{capStep("ACK", "multi-prefix")}, // capabilities acknowledged on separate lines
+		{capStep("ACK", "multi-prefix"), capStep("ACK", "away-notify")},
+		{capStep("NEW", "away-notify"), capStep("ACK", "away-notify")}, // cap-notify during the exchange
+		{capStep("ACK", "sasl")},
+		{capStep("LS", "*", "batch"), capStep("LS", "server-time")},
+		{capStep("DEL", "multi-prefix"), capStep("ACK", "batch")},
+		{capStep("LIST"), capStep("ACK", "*", "foo")},
+	} {
+		u, p := plainCreds(r, 64)
+		for _, fin := range []string{"903", "904"} {
+			st := append([]string{lsMulti, ackSasl}, mid...)
+			st = append(st, plus)
+			st = append(st, mid...)
+			st = append(st, numericStep(fin))
+			out = append(out, append(Case{"P", u, p, "", "", "operuser", randSecret(r)}, st...))
+		}
+		out = append(out, append(Case{"C", "XMECH", RandBytes(r, 400, b64Alphabet), "", "", "operuser", randSecret(r)}, append(append([]string{ls, ack, plus}, mid...), numericStep("903"))...))
+	}
+	// ... and these are the lines that do elicit it on the current code (C09_cap_end_iff)
+	for _, mid := range [][]string{
+		{capStep("NAK", "foo")},
+		{capStep("NEW", "unknown-cap")},
+		{capStep("LS", "")},
+		{capStep("ACK", "-sasl")},
+		{capStep("DEL", "sasl"), capStep("ACK", "multi-prefix")},
+	} {
+		u, p := plainCreds(r, 64)
+		out = append(out, append(Case{"P", u, p, "", "", "operuser", randSecret(r)}, append(append([]string{lsMulti, ackSasl, plus}, mid...), numericStep("904"))...))
+	}
+	// stateful mechanisms: several rounds, boundary lengths in any round, giving up late
+	ch := stepLine("AUTHENTICATE", "Y2hhbGxlbmdl")
+	rb := func(n int) string { return RandBytes(r, n, b64Alphabet) }
+	out = append(out,
+		Case{"S", "SCRAM-SHA-256", rb(60) + "," + rb(88) + "," + "+", randSecret(r), "", "operuser", randSecret(r), ls, ack, plus, ch, ch, numericStep("903")},
+		Case{"S", "XSTATEFUL", rb(400) + "," + rb(401), "", "", "operuser", randSecret(r), ls, ack, plus, ch, numericStep("900"), numericStep("903")},
+		Case{"S", "XSTATEFUL", rb(16) + "," + rb(800), "", "", "operuser", randSecret(r), ls, ack, plus, ch, ch, numericStep("903")},
+		Case{"S", "XSTATEFUL", rb(16) + ",," + rb(16), "", "", "operuser", randSecret(r), ls, ack, plus, ch, ch, numericStep("903")},
+		Case{"S", "XSTATEFUL", rb(399), "", "", "operuser", randSecret(r), ls, ack, plus, numericStep("904"), ch})
 	return out
 }
 
